@@ -271,6 +271,7 @@ type GenCfg struct {
 	Observers  bool // allow CSel/NSel observer calls
 	NoReset    bool // never start with Reset (zero-value histories)
 	ForceReset bool // always start with Reset
+	ManyStops  bool // hand-written gradients with up to 63 stops
 	LongRuns   int  // weight (out of ~90) of runs of 37..300 identical drawing calls
 	OffLattice bool // coordinates off the lattice (the oracle must then allow the format's quantisation); absolute, non-smooth, non-arc verbs only
 	WildStops  bool // gradient stops in any order (C18: the caller's slice must not be touched whatever it holds)
@@ -439,8 +440,8 @@ func (g *gen) manualGradient() {
 		nb = uint8(58 + t.Intn(6)) // stops wrap around 63
 	}
 	nStops := 2 + t.Intn(4)
-	if g.cfg.Dirty && t.Chance(1, 3) {
-		nStops = 32 + t.Intn(31)
+	if (g.cfg.Dirty || g.cfg.ManyStops) && t.Chance(1, 3) {
+		nStops = 32 + t.Intn(32) // up to 63, the most a gradient descriptor can ask for
 	}
 	g.emit(Op{K: KSetCSel, U: cb})
 	g.emit(Op{K: KSetNSel, U: nb})
@@ -460,7 +461,13 @@ func (g *gen) manualGradient() {
 			off = 1024
 		}
 	}
-	g.emit(Op{K: KSetCSel, U: uint8(t.Intn(64))})
+	// the descriptor goes into a register outside the stop window most of the
+	// time (inside it, it would overwrite a stop and invalidate the gradient)
+	sel := uint8(t.Intn(64))
+	if t.Chance(3, 4) {
+		sel = (cb + uint8(nStops) + uint8(t.Intn(64-nStops))) & 63
+	}
+	g.emit(Op{K: KSetCSel, U: sel})
 	g.emit(Op{K: KSetCReg, U: 0, C: ivg.RGBAColor(ivg.EncodeGradient(cb, nb, uint8(t.Intn(2)), uint8(t.Intn(4)), uint8(nStops)))})
 	g.emit(Op{K: KStartPath, U: 0, F: [6]float32{g.coord(), g.coord()}})
 	g.emit(g.drawOp(KAbsLineTo))
